@@ -17,7 +17,7 @@ BUDGET = {"quick": 78400, "thorough": 3920000}
 TIME_CAP = {"quick": 60, "thorough": 1500}
 ANCHORS = ["Length.__init__", "Length.value", "Length.__iadd__", "Length.__isub__", "Length.__truediv__", "Length.__imul__", "Length.__eq__", "Length.in_pixels",
            "Length.in_inches", "Length.__lt__", "Length.to_mm", "Length.to_cm", "Length.to_inch"]
-REQUIRED_MONITORS = ["value", "stays-symbolic", "binary-resolvable", "binary-unresolvable", "ordering", "equality", "conversion"]
+REQUIRED_MONITORS = ["value", "stays-symbolic", "binary-resolvable", "binary-unresolvable", "ordering", "equality", "conversion", "result-is-a-fresh-object"]
 
 PAIRS = [(a, b) for a in L.UNITS for b in L.UNITS]  # 196
 
@@ -198,6 +198,29 @@ def _run_binary(S, case, ctx):
         if A.amount != a or A.units != u1:
             ctx.violation("operand-modified/%s/%s" % (name, pair), "%s changed the left operand to %r" % (what, A), monitor="binary-resolvable")
             return
+        if isinstance(B, S.Length) and name in ("+", "-") and isinstance(r, S.Length):
+            # the result is a value of its own: changing it in place must reach neither operand (zero + x returning x itself would)
+            ctx.mon("result-is-a-fresh-object")
+            snap_b = (B.amount, B.units)
+            which = "left" if r is A else ("right" if r is B else None)
+            if which is None:
+                try:
+                    r.amount = r.amount + 1.0
+                except Exception:
+                    pass
+                if (A.amount, A.units) != (a, u1):
+                    which = "left"
+                elif (B.amount, B.units) != snap_b:
+                    which = "right"
+            if which:
+                ctx.violation("result-shares-state-with-operand/%s/%s/%s" % (name, which, "zero-left" if a == 0 else ("zero-right" if b == 0 else "nonzero")),
+                              "%s returned an object that is (or shares its state with) its %s operand" % (what, which), monitor="result-is-a-fresh-object")
+                return
+            if which is None:
+                try:
+                    r.amount = r.amount - 1.0
+                except Exception:
+                    pass
         if com is None:
             ctx.mon("binary-unresolvable")
             # never a guess: ValueError, a symbolic Length, or (== / !=) a plain "not equal"
